@@ -187,7 +187,14 @@ func runC09(c *Ctx) {
 					}
 				}()
 				pert.Barrier()
+				// goroutine inventory: the reference count is taken when the base
+				// controllers are quiet (ready, no list in flight).  With a slow first
+				// list that is not yet the case here (a list call in flight is later
+				// replaced by a watch session: their number of helper goroutines is
+				// nobody's business), so the reference is then the count after the
+				// first cycle's close: a leak per cycle still shows as growth.
 				base := sched.LibraryGoroutines()
+				baseValid := isClosed(src.ready()) && isClosed(dst.ready())
 				for cycle := 0; cycle < 3; cycle++ {
 					// the constructor's context only carries the logger: ending it
 					// after construction (odd cycles) changes nothing
@@ -308,7 +315,10 @@ func runC09(c *Ctx) {
 					if !isClosed(j.done()) {
 						problems = append(problems, "the join result is not done after Close()")
 					}
-					if left := sched.LibraryGoroutines() - base; left > 0 {
+					if !baseValid {
+						base = sched.LibraryGoroutines()
+						baseValid = isClosed(src.ready()) && isClosed(dst.ready())
+					} else if left := sched.LibraryGoroutines() - base; left > 0 {
 						problems = append(problems, fmt.Sprintf("cycle %d: %d library goroutines are left after the join result was closed", cycle, left))
 						base += left
 					}
